@@ -230,3 +230,66 @@ def check_C06(tier, seed):
         out.samples.append(smp)
     rule = RULES["C06"] + " evaluations = (memoized rule, entry offset) pairs observed; plus 5 hand-built fully memoized families (nested brackets with 3-4 alternatives sharing a prefix, right-recursive expressions, lookahead-then-match, failing @check, lists) with failing inputs up to depth 24: aggregate bound rules x (len+1) and at-most-linear growth of the logical step count."
     return out.finish(pairs, reentered, rule, floor=floor)
+
+
+
+# ------------------------------------------------------------------------------------------------ C14
+def check_C14(tier, seed):
+    """pipeline run + the build-script route: a user context type configured through Compile::user_context_type must reach
+    the generated code whatever the order of the builder calls (compared with the library route)."""
+    import random
+    import subprocess
+    import tempfile
+    import shutil
+    import c15
+    import ggen
+    import grender
+    out, ev, nt, floor = pipeline_check("C14", tier, seed)
+    wd = tempfile.mkdtemp(prefix="vf14_", dir=build.WORK)
+    try:
+        bs = c15.build_bscript()
+        n = 8 if tier == "quick" else 40
+        jobs = []
+        meta = []
+        k = 0
+        i = 0
+        while len(meta) < n and i < n * 20:
+            i += 1
+            g = ggen.Gen(random.Random("c14b/%s/%d" % (seed, i)), ggen.profile("userfn")).grammar()
+            if not g.user_ctx:
+                continue
+            text = grender.render(g, None)
+            gp = os.path.join(wd, "g%d.ebnf" % k)
+            with open(gp, "w", encoding="utf-8") as f:
+                f.write(text)
+            jobs.append(("g%d" % k, gp, os.path.join(wd, "lib%d.rs" % k), "Debug,Clone,PartialEq", "vfrt::Ctx"))
+            meta.append((k, text, gp))
+            k += 1
+        r = build.run_cgdrv("gen", jobs, wd)
+        for (k, text, gp) in meta:
+            if r["g%d" % k][0] != "ok":
+                continue
+            lib = open(os.path.join(wd, "lib%d.rs" % k), encoding="utf-8").read()
+            for order in ("cdopf", "dcopf", "opfcd", "cpdfo"):
+                dest = os.path.join(wd, "bs%d_%s.rs" % (k, order))
+                p = subprocess.run([bs, "run", gp, dest, "-", "Debug,Clone,PartialEq", "0", "vfrt::Ctx", order], stdout=subprocess.PIPE, stderr=subprocess.PIPE, env=build.BASE_ENV, timeout=120)
+                ev += 1
+                nt += 1
+                if p.stdout.decode().strip() != "OK":
+                    out.violation("c14:buildscript-route-failed", "Compile (builder order %s) failed on a grammar the library route accepts: %s" % (order, p.stdout.decode()[:200]), {"grammar_text": text, "order": order})
+                    continue
+                content = open(dest, encoding="utf-8").read()
+                lines = content.split("\n")
+                j = 0
+                while j < len(lines) and (lines[j].startswith("//") or lines[j] == ""):
+                    j += 1
+                code = "\n".join(lines[j:])
+                if code != lib:
+                    has_ctx = "vfrt :: Ctx" in code
+                    out.violation("c14:user-context-not-delivered:%s" % ("missing" if not has_ctx else "differs"),
+                                  "user context type configured with Compile::user_context_type %s the generated code when the builder calls come in order %s (c=user_context_type d=derives o=destination p=prefix f=format)" % ("does not reach" if not has_ctx else "changes", order),
+                                  {"grammar_text": text, "order": order})
+        out.coverage["buildscript_route_context_checks"] = len(meta) * 4
+    finally:
+        shutil.rmtree(wd, ignore_errors=True)
+    return out.finish(ev, nt, RULES["C14"] + " Plus: user-context grammars through Compile::user_context_type with 4 builder-call orders, generated code compared with the library route.", floor=floor)
